@@ -1,11 +1,18 @@
 """Leader block production (spec/Producer.tla, spec/MC_Producer.tla): TLC check, EDGE/STATE dump and
 replay of every transition into the real BlockProducer (harness `replay-producer`).
 
-Used by C10 (the producer task must not panic / wedge on any transaction stream and ParentReady timing) and
-C02 (the block completes on time with the ready parent):
+One leader WINDOW is modelled: what wait_for_first_slot decides (Ready / ParentReadyNotSeen / Skip), the first block
+with exact slice byte accounting and the optimistic parent switch, the remaining blocks of the window chained on
+the block just produced, the leader's next window after a skipped or completed window, failing Disseminator sends.
+
+Used by C10 (the producer task must not panic / wedge on any transaction stream, ParentReady / finalization timing,
+send failure) and C02 (slices, blocks and windows complete at the model's step with the right parents):
     from .. import producer as PR
     PR.run_model(ctx, "producer", relevant=PR.relevant_c10)      # in c10.py
     PR.run_model(ctx, "producer", relevant=PR.relevant_c02)      # in c02.py
+`race=True` adds the situations "block of the previous slot AND a later finalization present when the loop reaches
+the window" (see work/notes/producer.md, finding 2: the code produces optimistically for a decided window and
+panics at the next finalization); leave it off until that finding is repaired or listed as known.
 """
 import json
 import os
@@ -18,42 +25,58 @@ MAX_DATA_PER_SLICE = 32767
 MAX_TRANSACTION_SIZE = 512
 
 INVS = ["InvNoOverflow", "InvNoPanic", "InvIndices", "InvOneLast", "InvFirstParent", "InvOneSwitch",
-        "InvEffectiveParentIsReady", "InvTxConserved", "InvRoomForOne", "InvNeverStuck", "InvOutConsistent"]
+        "InvEffectiveParentIsReady", "InvTxConserved", "InvRoomForOne", "InvNeverStuck", "InvCanComplete",
+        "InvBlocksOK", "InvWindowChain", "InvWindowShape", "InvWholeWindows", "InvOutConsistent"]
+
+# situations in which the loop reaches the window (Producer!OnStart)
+STARTS = ["pr", "blk", "fin", "finP", "pr+fin", "pr+finP"]
+RACE_STARTS = ["blk+fin", "blk+finP"]
 
 # Transaction sizes: cost of a transaction = 8 + len.  A slice without parent has 32758 - 8 = 32750 bytes for
 # transactions (32710 with a parent or with the 40 reserved bytes) and closes when less than 520 are left.
 # A burst of 57 x 512 leaves 3110 (3070); with 512 (cost 520), 502 (510) and 503 (511) at most six single
 # transactions close the slice with 0, 10, 20, 30, 39, 40, ... 519 bytes left: both sides of the 40-byte
 # boundary of the parent switch and the exact fit (payload = MAX_DATA_PER_SLICE) are reached.
-QUICK = dict(db=2, df=1, max_idx=1023, parents=["A", "B"], sizes=[512, 502], over=[513], burst=57,
-             singles=6, slices=2)
-THOROUGH = dict(db=3, df=1, max_idx=1023, parents=["A", "B", "C"], sizes=[512, 502, 503], over=[513], burst=57,
-                singles=6, slices=3)
+# The other blocks of the window (and the next window) get `later` transactions of 512 bytes per slice.
+QUICK = dict(db=2, df=1, max_idx=1023, w=4, parents=["A", "B"], sizes=[512, 502], over=[513], burst=57,
+             singles=6, later=1, loss=["none", "all"], slices=2)
+THOROUGH = dict(db=3, df=1, max_idx=1023, w=4, parents=["A", "B", "C"], sizes=[512, 502, 503], over=[513], burst=57,
+                singles=6, later=1, loss=["none"], slices=3)
+# every loss pattern, smaller byte exploration (thorough, second replay)
+LOSSY = dict(QUICK, loss=["none", "odd", "all"], later=2)
+# the direct entry (produce_block_* called without the loop) knows one block and no wait_for_first_slot
+DIRECT = dict(QUICK, w=1)
 # SliceIndex::MAX is 1023 in the code; the `is_max` path (last slice forced, ParentReady awaited before it is
 # shipped) is checked by TLC only, with MaxIdx = 2
 ISMAX = dict(QUICK, max_idx=2, slices=3)
+# the transcription of the code in the race situations (replayed only while that finding is open)
+ASIS = dict(QUICK, sizes=[512], over=[513], burst=0, singles=2)
 
 
 def tla_set(xs):
     return "{" + ", ".join(f'"{x}"' if isinstance(x, str) else str(x) for x in xs) + "}"
 
 
-def cfg(c, as_is=False, frozen=True, invariants=INVS, dump=True, view=True, variants=("ready", "notready")):
+def cfg(c, as_is=(), frozen=True, invariants=INVS, dump=True, view=True, starts=STARTS):
     s = f"""CONSTANTS
   MaxData = {MAX_DATA_PER_SLICE}
   MaxTx = {MAX_TRANSACTION_SIZE}
   DeltaBlock = {c['db']}
   DeltaFirst = {c['df']}
   MaxIdx = {c['max_idx']}
-  CodeAsIs = {'TRUE' if as_is else 'FALSE'}
+  W = {c['w']}
+  CodeAsIs = {tla_set(list(as_is))}
   Frozen = {'TRUE' if frozen else 'FALSE'}
-  Variants = {tla_set(list(variants))}
+  Starts = {tla_set(list(starts))}
   Parents = {tla_set(c['parents'])}
   TxSizes = {tla_set(c['sizes'])}
   OverSizes = {tla_set(c['over'])}
   BurstN = {c['burst']}
   BurstLen = {MAX_TRANSACTION_SIZE}
   MaxSingles = {c['singles']}
+  LaterSizes = {{{MAX_TRANSACTION_SIZE}}}
+  LaterSingles = {c['later']}
+  LossModes = {tla_set(c['loss'])}
   MaxSlices = {c['slices']}
 INIT Init
 NEXT Next
@@ -70,17 +93,24 @@ CHECK_DEADLOCK FALSE
 
 # ---------------------------------------------------------------- relevance filters
 def reservation(fp):
-    """divergence at a step taken while the intended 40-byte reservation is in force, or the reproduced crash"""
-    return bool(re.search(r":rsv40\|", fp)) or fp.startswith("asis|")
+    """divergence at a step taken while the 40-byte reservation for the parent switch is in force"""
+    return bool(re.search(r":rsv40[:|]", fp))
+
+
+def is_race(fp):
+    """divergence in a run that started with the previous block AND a later finalization present, or the crash
+    reproduced from the transcription of the code"""
+    return bool(re.search(r":blk\+fin\|", fp)) or fp.startswith("asis|")
 
 
 def relevant_c10(fp, fields):
-    """C10: the task panics / stops, hostile (oversized) transactions, content of the slices, the reservation"""
-    return reservation(fp) or any(f in ("panic", "chk") for f in fields)
+    """C10: the task panics / stops, hostile (oversized) transactions, content of the slices, send failures,
+    the reservation, the previous-block-versus-finalization race"""
+    return reservation(fp) or is_race(fp) or any(f in ("panic", "chk", "sent") for f in fields)
 
 
 def relevant_c02(fp, fields):
-    """C02: slices / completion / parent at the wrong step (timing, last flag, ready parent)"""
+    """C02: slices / blocks / windows at the wrong step or with the wrong parent (timing, last flag, chain)"""
     return not relevant_c10(fp, fields)
 
 
@@ -88,7 +118,8 @@ def relevant_c02(fp, fields):
 def dump_stats(path):
     st = dict(edges=0, done_ready=0, done_same=0, done_switched=0, switch_later=0, exactly_full=0,
               switch_exactly_full=0, room_1_39=0, room_40=0, dropped=0, closed_by_tx=0, closed_by_tick=0,
-              last_by_pr=0, rsv40_steps=0)
+              last_by_pr=0, rsv40_steps=0, skip_windows=0, later_blocks=0, windows_completed=0,
+              next_window_completed=0, chained_parent=0, lossy_slices=0, lossy_last_slices=0)
     with open(path, errors="replace") as f:
         for line in f:
             if not line.startswith('<<"EDGE"'):
@@ -96,11 +127,20 @@ def dump_stats(path):
             j = json.loads(json.loads(line[len('<<"EDGE", '):line.rindex(">>")]))
             a, e = j["a"], j["e"]
             st["edges"] += 1
+            first = e["w"] == "w1" and e["k"] == 0
             if a.get("rsv") == 40:
                 st["rsv40_steps"] += 1
             if a["op"] == "tx" and a["acc"] == 0:
                 st["dropped"] += 1
+            if e["skip"]:
+                st["skip_windows"] += 1
             for s in e["ship"]:
+                if a["loss"] != "none":
+                    st["lossy_slices"] += 1
+                    if s["last"]:
+                        st["lossy_last_slices"] += 1
+                if not first:
+                    continue
                 room = MAX_DATA_PER_SLICE - s["size"]
                 st["closed_by_tx" if a["op"] == "tx" else "closed_by_tick" if a["op"] == "tick" else "last_by_pr"] += 1
                 if room == 0:
@@ -114,7 +154,15 @@ def dump_stats(path):
                 if s["idx"] > 0 and s["par"] == "none" and room == 40:
                     st["room_40"] += 1
             if e["done"]:
-                if a["v"] == "ready":
+                if not first:
+                    st["later_blocks"] += 1
+                    if e["k"] > 0 and e["eff"] == f"K{e['k'] - 1}":
+                        st["chained_parent"] += 1
+                    if e["k"] == 3:
+                        st["windows_completed"] += 1
+                        if e["w"] == "w4":
+                            st["next_window_completed"] += 1
+                elif a["v"] == "ready":
                     st["done_ready"] += 1
                 elif e["eff"] == "A":
                     st["done_same"] += 1
@@ -125,11 +173,13 @@ def dump_stats(path):
 
 NEED = ["done_ready", "done_same", "done_switched", "switch_later", "exactly_full", "switch_exactly_full",
         "room_1_39", "room_40", "dropped", "closed_by_tx", "closed_by_tick", "rsv40_steps"]
+NEED_WINDOW = ["skip_windows", "later_blocks", "windows_completed", "next_window_completed", "chained_parent",
+               "lossy_slices", "lossy_last_slices"]
 
 
-def replay(ctx, name, c, as_is, entry, relevant, max_div=400):
+def replay(ctx, name, c, as_is, entry, starts, max_div=400):
     """TLC dump of one model + replay of every transition into the real code"""
-    r = ctx.tlc(name, "MC_Producer", cfg(c, as_is=as_is, invariants=([] if as_is else INVS)), "",
+    r = ctx.tlc(name, "MC_Producer", cfg(c, as_is=as_is, invariants=([] if as_is else INVS), starts=starts), "",
                 workers=6, timeout=1500, heap="6g")
     rep = ctx.harness(["replay-producer", "--tlc-out", r.out_path, "--entry", entry, "--delta-block", c["db"],
                        "--delta-first", c["df"], "--seed", ctx.seed, "--max-div", max_div])
@@ -139,63 +189,80 @@ def replay(ctx, name, c, as_is, entry, relevant, max_div=400):
     return r, rep
 
 
-def run_model(ctx, name="producer", relevant=None, entry=None):
+def rm(path):
+    try:
+        os.remove(path)
+    except OSError:
+        pass
+
+
+def run_model(ctx, name="producer", relevant=None, entry=None, race=False):
     """TLC: the intended producer satisfies every invariant (harness clock and wall clock, is_max with a small
-    constant), the pre-repair transcription violates NoOverflow (sharpness); every transition of the intended
+    constant); the transcriptions of unrepaired code violate theirs (sharpness); every transition of the intended
     model is replayed into the real BlockProducer."""
     quick = ctx.tier == "quick"
     c = QUICK if quick else THOROUGH
-    # 1. sharpness: the transcription of the code before the repair must overflow a slice
-    w = ctx.tlc(f"{name}_asis_w", "MC_Producer", cfg(QUICK, as_is=True, dump=False, invariants=["InvNoOverflow"]), "",
-                workers=4, timeout=600, heap="4g", expect_violation="InvNoOverflow")
-    if w.violated != "InvNoOverflow":
-        raise ToolError(f"vacuity: the pre-repair transcription does not overflow ({w.error or w.violated})")
-    ctx.notes.setdefault("witnesses_reached", []).append("asis:InvNoOverflow")
-    # 2. design-level variants that are not replayed: wall clock (std Instant advances), SliceIndex::MAX
+    starts = STARTS + (RACE_STARTS if race else [])
+    # 1. sharpness: the transcription without the reservation (repaired by 92ea5f1) must overflow a slice, the one
+    #    that looks at the previous block before the finalization must start a block it can never complete
+    for (tag, as_is, inv, st) in [("noreserve", ["noreserve"], "InvNoOverflow", STARTS),
+                                  ("blockfirst", ["blockfirst"], "InvCanComplete", STARTS + RACE_STARTS)]:
+        w = ctx.tlc(f"{name}_{tag}_w", "MC_Producer", cfg(QUICK, as_is=as_is, dump=False, invariants=[inv], starts=st), "",
+                    workers=4, timeout=600, heap="4g", expect_violation=inv)
+        if w.violated != inv:
+            raise ToolError(f"vacuity: the transcription '{tag}' does not violate {inv} ({w.error or w.violated})")
+        ctx.notes.setdefault("witnesses_reached", []).append(f"{tag}:{inv}")
+    # 2. design-level variants that are not replayed: wall clock (std Instant advances), SliceIndex::MAX; they
+    #    always include the race situations (the intended rule decides them)
+    allst = STARTS + RACE_STARTS
     if not quick:
-        ctx.tlc(f"{name}_wall", "MC_Producer", cfg(THOROUGH, frozen=False, dump=False), "", workers=6, timeout=900, heap="6g")
-        ctx.tlc(f"{name}_ismax", "MC_Producer", cfg(ISMAX, dump=False), "", workers=4, timeout=600, heap="4g")
-        ctx.tlc(f"{name}_ismax_wall", "MC_Producer", cfg(ISMAX, frozen=False, dump=False), "", workers=4, timeout=600, heap="4g")
-        ctx.witness(f"{name}_ismax", "MC_Producer", cfg(ISMAX, dump=False, invariants=[], view=False), "", ["W_Await"])
+        ctx.tlc(f"{name}_wall", "MC_Producer", cfg(THOROUGH, frozen=False, dump=False, starts=allst), "", workers=6, timeout=900, heap="6g")
+        ctx.tlc(f"{name}_ismax", "MC_Producer", cfg(ISMAX, dump=False, starts=allst), "", workers=4, timeout=600, heap="4g")
+        ctx.tlc(f"{name}_ismax_wall", "MC_Producer", cfg(ISMAX, frozen=False, dump=False, starts=allst), "", workers=4, timeout=600, heap="4g")
+        ctx.witness(f"{name}_ismax", "MC_Producer", cfg(ISMAX, dump=False, invariants=[], view=False, starts=allst), "", ["W_Await"])
     else:
-        ctx.tlc(f"{name}_wall", "MC_Producer", cfg(QUICK, frozen=False, dump=False), "", workers=4, timeout=600, heap="4g")
-    # 3. intended model -> real code.  quick: through the real block_production_loop (wait_for_first_slot, ParentReady
-    #    from the real pool); thorough: the large model through the loop, the small one through the direct calls
-    runs = [(name, c, entry or "loop")]
+        ctx.tlc(f"{name}_wall", "MC_Producer", cfg(QUICK, frozen=False, dump=False, starts=allst), "", workers=4, timeout=600, heap="4g")
+    # 3. intended model -> real code through the real block_production_loop (wait_for_first_slot on the real pool and
+    #    blockstore, ParentReady / finalization from real certificates).  thorough: the large model, the model
+    #    with every loss pattern, and the one-block model through the direct calls
+    runs = [(name, c, entry or "loop", starts)]
     if not quick and entry is None:
-        runs.append((name + "_direct", QUICK, "direct"))
-    hit_reservation = False
-    for (nm, cc, en) in runs:
-        r, rep = replay(ctx, nm, cc, False, en, relevant)
+        runs.append((name + "_lossy", LOSSY, "loop", starts))
+        runs.append((name + "_direct", DIRECT, "direct", ["pr", "blk"]))
+    hit_race = False
+    for (nm, cc, en, st_) in runs:
+        r, rep = replay(ctx, nm, cc, (), en, st_)
         st = dump_stats(r.out_path)
-        missing = [k for k in NEED if st[k] == 0]
+        need = NEED + (NEED_WINDOW if cc["w"] == 4 else [])
+        if len(cc["loss"]) == 1:
+            need = [k for k in need if not k.startswith("lossy")]
+        missing = [k for k in need if st[k] == 0]
         if missing:
             raise ToolError(f"vacuity: {nm} never exercises {missing}")
-        ctx.notes.setdefault("producer", []).append({"model": nm, "entry": en, "stats": st})
+        seen = {k: rep.get(k, 0) for k in ("windows_skipped", "windows_completed", "failed_sends")}
+        if len(cc["loss"]) == 1:
+            seen.pop("failed_sends")
+        if cc["w"] == 4 and any(v == 0 for v in seen.values()):
+            raise ToolError(f"vacuity: the replay of {nm} saw {seen}")
+        ctx.notes.setdefault("producer", []).append({"model": nm, "entry": en, "stats": st, "replay": seen})
         ctx.replay_report(nm, rep, relevant)
-        hit_reservation |= any(reservation(d["fingerprint"]) for d in rep.get("divergences", []))
-        try:
-            os.remove(r.out_path)
-        except OSError:
-            pass
-    # 4. the code lacks the reservation: the intended replay stops at those steps, so the pre-repair transcription
-    #    (which such a tree conforms to) is replayed instead - it covers every other behaviour (its divergences go
-    #    through the same filter) and exhibits the consequence: every panic it predicts and the real task
-    #    reproduces is the crash itself (reported once, with the shortest walk)
-    if hit_reservation:
+        hit_race |= any(is_race(d["fingerprint"]) for d in rep.get("divergences", []))
+        rm(r.out_path)
+    # 4. the code diverges in the race situations: the transcription of the code ("blockfirst") is replayed - it
+    #    covers every other behaviour of those runs (its divergences go through the same filter) and exhibits
+    #    the consequence: every panic it predicts and the real task reproduces is the crash itself
+    if hit_race:
         nm = name + "_asis"
-        r, rep = replay(ctx, nm, c, True, entry or "loop", relevant)
+        r, rep = replay(ctx, nm, ASIS, ["blockfirst"], entry or "loop", RACE_STARTS)
         ctx.replay_report(nm, rep, relevant)
         ctx.notes.setdefault("producer", []).append(
-            {"model": nm, "conforms_to_pre_repair_code": rep["complete"], "panics_reproduced": rep["panics_reproduced"]})
-        if rep["panics_reproduced"] > 0 and (relevant is None or relevant("asis|panic:shred", ["panic"])):
-            ctx.divergence(name, "asis|panic:shred",
-                           {"what": "the real producer task panics where the pre-repair transcription predicts it "
-                                    "(.expect(\"shredding of valid slice should never fail\"): payload > MAX_DATA_PER_SLICE "
-                                    "after apply_parent_ready put Some(parent) into a full slice)",
+            {"model": nm, "conforms_to_code": rep["complete"], "panics_reproduced": rep["panics_reproduced"]})
+        if rep["panics_reproduced"] > 0 and (relevant is None or relevant("asis|panic:sender", ["panic"])):
+            ctx.divergence(name, "asis|panic:sender",
+                           {"what": "the real producer task panics where the transcription of the code predicts it "
+                                    "(.expect(\"ParentReady sender should not be dropped\"): optimistic production was "
+                                    "started for a window the pool had already pruned; the next finalization drops the "
+                                    "oneshot sender)",
                             "panics_reproduced": rep["panics_reproduced"], "walk": rep["panic_walk"],
                             "edges": rep["edges"], "conforms": rep["complete"]})
-        try:
-            os.remove(r.out_path)
-        except OSError:
-            pass
+        rm(r.out_path)
